@@ -61,3 +61,9 @@ pub fn vx_occupied_remove<K: std::cmp::Eq + std::hash::Hash, V>(m: &mut std::col
     requires old(m)@.contains_key(*k),
     ensures r == old(m)@[*k], final(m)@ == old(m)@.remove(*k),
 { m.remove(k).unwrap() }
+// Rewrite R26 target: the elements of a HashSet taken by value, each exactly once, in an unspecified order (what
+// `for x in set` iterates over: std "An owning iterator over the items of a HashSet ... visiting all elements in arbitrary order").
+#[verifier::external_body]
+pub fn vx_set_into_vec<T: std::cmp::Eq + std::hash::Hash>(s: std::collections::HashSet<T>) -> (r: Vec<T>)
+    ensures r@.no_duplicates(), forall|x: T| r@.contains(x) == s@.contains(x),
+{ s.into_iter().collect() }
